@@ -4,3 +4,12 @@ open IrVerif.Names
 #print axioms C15_monotone
 #print axioms C15_loop_terminates
 #print axioms C15_explicit_kept
+#print axioms C15_namefix_total
+#print axioms C15_namefix_post
+#print axioms C15_namefix_keeps_unique
+#print axioms C15_namefix_idempotent
+#print axioms C15_namefix_call_total
+#print axioms C15_namefix_call_post
+#print axioms C15_namefix_call_keeps_unique
+#print axioms C15_namefix_call_idempotent
+#print axioms C15_rename_values_atomic
